@@ -81,11 +81,70 @@ def stable_text(f, cond, akeys, once_ok=None):
     return norm_text(c)
 
 
-def reach(f, start, target_pred, avoid=(), assume=(), from_elem=None):
+def assigned_after(f, node):
+    """lvalue keys that may be assigned after the CFG element holding `node` (rest of its block + every block reachable
+    from it).  Conditions over other lvalues are stable for queries that start at `node`."""
+    x = node["id"]
+    while x is not None and x not in f.elem_block:
+        x = f.parent.get(x)
+    if x is None:
+        return assigned_keys(f)
+    b0, i0 = f.elem_block[x]
+    out = set()
+    def scan(n):
+        for y in subnodes(n):
+            a = assigned(y)
+            if a:
+                k = lv(a[0])
+                if k:
+                    out.add(k)
+            if y["k"] == "Call":
+                for z in args(y):
+                    z2 = strip(z)
+                    if z2 is not None and z2["k"] == "Unary" and z2["op"] == "&":
+                        k = lv(z2["c"][0])
+                        if k:
+                            out.add(k)
+            if y["k"] == "Var" and y.get("c") and y["c"][0] is not None:
+                out.add(y["n"])
+    for e in f.blocks[b0]["e"][i0 + 1:]:
+        scan(f.nodes[e])
+    seen, stack = set(), [s for s in f.blocks[b0]["s"] if s is not None]
+    while stack:
+        b = stack.pop()
+        if b in seen:
+            continue
+        seen.add(b)
+        for e in f.blocks[b]["e"]:
+            n = f.nodes[e]
+            # CFG elements are sub-expressions too: only look at the element's own node kind to avoid quadratic rescans
+            a = assigned(n)
+            if a:
+                k = lv(a[0])
+                if k:
+                    out.add(k)
+            if n["k"] == "Call":
+                for z in args(n):
+                    z2 = strip(z)
+                    if z2 is not None and z2["k"] == "Unary" and z2["op"] == "&":
+                        k = lv(z2["c"][0])
+                        if k:
+                            out.add(k)
+            if n["k"] == "DeclStmt":
+                for v in n["c"]:
+                    if v.get("c") and v["c"][0] is not None:
+                        out.add(v["n"])
+        stack.extend(s for s in f.blocks[b]["s"] if s is not None)
+    return out
+
+
+def reach(f, start, target_pred, avoid=(), assume=(), from_elem=None, akeys=None):
     """Is a block satisfying target_pred reachable from block `start` without passing through a block in
     `avoid`, on a path consistent with the stable conditions?  assume: iterable of (text, truth).
+    akeys: the lvalue keys considered unstable (default: everything assigned anywhere in the function).
     Returns the witness path (list of block ids) or None."""
-    akeys = assigned_keys(f)
+    if akeys is None:
+        akeys = assigned_keys(f)
     init = frozenset(assume)
     seen = set()
     stack = [(start, init, (start,))]
